@@ -132,8 +132,8 @@ pub fn norm_loc(loc: &str) -> String {
             return rest[j + 1..].to_string();
         }
     }
-    if let Some(rest) = loc.strip_prefix("/repo/") {
-        return rest.to_string();
+    if let Some(i) = loc.find("/repo/src/") {
+        return loc[i + "/repo/".len()..].to_string();
     }
     if let Some(i) = loc.find("/rustc/") {
         let rest = &loc[i + "/rustc/".len()..];
